@@ -582,7 +582,7 @@ pub fn plan_for(id: &str, tier: &str) -> Option<Plan> {
             p.profile.valid_add_pct = 45;
             p.profile.w_kind = [60, 8, 12, 5, 15];
             p.required = vec!["AddVersion|absent", "arg=latest|accepted", "arg=older|conflict", "arg=base|conflict", "arg=foreign|conflict", "arg=unknown|conflict", "arg=nil|conflict", "base=id"];
-            p.rule = "exhaustive small scope (chain length x base x snapshot x every class of requested parent) plus random histories with 55% invalid parents and re-sent versions; every AddVersion is judged against the acceptance rule on the observed chain, read back, checked for id freshness, and rejected ones are framed by full state dumps. distinct_nontrivial = distinct (operation, state class, argument class, outcome) situations.";
+            p.rule = "exhaustive small scope (chain length x base x snapshot x every class of requested parent) plus random histories with 55% invalid parents and re-sent versions; every AddVersion is judged against the acceptance rule on the observed chain, read back, checked for id freshness, and rejected ones are framed by full state dumps. distinct_nontrivial = distinct (operation, state class, argument class, outcome) situations. Atomicity under overlap: the E2 scenarios in which only AddVersion requests race (controlled scheduler, differential oracle) — two requests on one parent are never both accepted.";
         }
         "C07" => {
             p.property = "C07";
